@@ -152,6 +152,9 @@ def xindex(array, row_num, col_num=None, area_num=1):
         isinstance(row_num, np.ndarray)
     )
     if not res.shape:
+        val = res.item()
+        if isinstance(val, np.ndarray):  # Whole row of an array constant.
+            return np.atleast_2d(val).view(Array)
         res = res.reshape(1, 1)
     return res.view(Array)
 
